@@ -270,6 +270,15 @@ def race_workloads(tier, seed, prop):
     return [(seed * 1000 + 700 + i, 0x000 | (0x800 if i % 2 else 0), 30 if tier == 'quick' else 60, i % 2) for i in range(n)]
 
 
+def reopen_workloads(tier, seed, prop):
+    """Frequent close / open cycles inside the workload: every recovery writes a new MANIFEST, switches CURRENT and
+    removes the logs it replayed, with unsynced acknowledged batches in their tails."""
+    if prop not in ('C02', 'C03', 'C05'):
+        return []
+    n = 2 if tier == 'quick' else 8
+    return [(seed * 1000 + 800 + i, [0x000, 0x800, 0x102, 0x904][i % 4], 26 if tier == 'quick' else 44, i % 2) for i in range(n)]
+
+
 def workloads(tier, seed, prop):
     """(seed, optbits, nbatches, endmode). reuse_logs is bit 11; wb sizes bits 1-2; snappy bit 8."""
     base = [(0, 0x000), (1, 0x800), (2, 0x102), (3, 0x904)]
@@ -295,10 +304,11 @@ def run_disk(prop, tier, seed, extra=None):
     classes = {}
     allw = [(w, False) for w in workloads(tier, seed, prop)] + [(w, True) for w in heavy_workloads(tier, seed, prop)]
     allw += [(w, 'race') for w in race_workloads(tier, seed, prop)]
+    allw += [(w, 'reopen') for w in reopen_workloads(tier, seed, prop)]
     for ((wseed, bits, nb, endmode), heavy) in allw:
         if out.full(): break
-        renv = {'CRASH_HEAVY': '1'} if heavy is True else {'CRASH_RACE': '1'} if heavy == 'race' else None
-        if heavy == 'race': heavy = False
+        renv = {'CRASH_HEAVY': '1'} if heavy is True else {'CRASH_RACE': '1'} if heavy == 'race' else {'CRASH_REOPEN': '1'} if heavy == 'reopen' else None
+        if heavy in ('race', 'reopen'): heavy = False
         plan = Plan(tier, prop)
         if heavy:
             plan.point_every = 12 if tier == 'quick' else 5; plan.only_classes = ['max', 'min']; plan.nested_every = 0; plan.model_images = False
@@ -374,7 +384,7 @@ def _report(prop, out, r, lines, tp, journal, wseed, bits, nb, endmode, exe, pla
     slim = None
     if bad:
         slim = {k: v for k, v in bad.items() if k not in ('follow', 'again')}
-    json.dump(dict(kind='disk', prop=prop, workload=dict(seed=wseed, bits=bits, nb=nb, endmode=endmode), violated=r['violated'],
+    json.dump(dict(kind='disk', prop=prop, workload=dict(seed=wseed, bits=bits, nb=nb, endmode=endmode, env=renv or {}), violated=r['violated'],
                    line=idx, event=bad, tlc_tail=r['res'].out[-2500:]), open(os.path.join(rd, 'replay.json'), 'w'), indent=1)
     open(os.path.join(rd, 'README'), 'w').write('Reproduce: cd /verif && ./check replay %s\nDiskTrace: %s at trace line %d\n%s\n' % (rd, r['violated'] or 'event not explained', idx + 1, json.dumps(slim)[:1500]))
     what = 'DiskTrace %s at line %d: %s (workload seed=%d bits=%#x)' % (r['violated'] or 'rejects', idx + 1, json.dumps(slim)[:300], wseed, bits)
